@@ -2,8 +2,11 @@ package kit
 
 import (
 	"encoding/json"
+	"errors"
 	"fmt"
 	"os"
+	"strconv"
+	"strings"
 	"testing"
 
 	"pgregory.net/rapid"
@@ -80,6 +83,10 @@ func (o Oracle[C]) Regress(t *testing.T) {
 		}
 		var c C
 		if err := json.Unmarshal(rp.Case, &c); err != nil {
+			var ute *json.UnmarshalTypeError
+			if strconv.IntSize == 32 && errors.As(err, &ute) && strings.HasPrefix(ute.Value, "number") {
+				continue // a case with a 64-bit int argument: not expressible on a 32-bit build
+			}
 			t.Fatalf("HARNESS-ERROR cannot decode %s: %v", f, err)
 		}
 		res := o.Safe(&c)
